@@ -52,7 +52,7 @@ def main():
             rec['suite_passed'] = st.returncode == 0 and '102 passed' in tail
         else:
             rec['suite_passed'] = None
-        patch_now = sh(['git', '-C', wt, 'diff', '--', 'AutoCarver']).stdout
+        patch_now = sh(['git', '-C', wt, 'diff', 'HEAD', '--', 'AutoCarver']).stdout
     finally:
         sh(['git', '-C', '/repo', 'worktree', 'remove', '--force', wt])
         shutil.rmtree(scratch, ignore_errors=True)
